@@ -153,6 +153,7 @@ Clauses(e) == CASE e.ev = "new" -> NewC(e)
                 [] e.ev = "fixed" -> FixedC(e)
                 [] e.ev = "query" -> QueryC(e)
                 [] e.ev = "view" -> ViewC(e)
+                [] e.ev = "harness_abort" -> << <<"harness_abort", FALSE>> >>   \* the harness could not digest what the crate returned
                 [] OTHER -> << <<"unknown_event", FALSE>> >>
 
 (* the value a register takes after the event: the logged result when it is usable, else the specification's own *)
@@ -166,7 +167,7 @@ Step == /\ l <= Len(Rec)
         /\ LET e == Rec[l]
                why == Failed(Clauses(e))
            IN /\ bad' = IF why = {} THEN bad ELSE Append(bad, [i |-> l, why |-> why])
-              /\ regs' = IF e.ev \in {"view", "law", "cone", "ellipse", "ellipse_bad", "polygon"} THEN regs
+              /\ regs' = IF e.ev \in {"view", "law", "cone", "ellipse", "ellipse_bad", "polygon", "harness_abort"} THEN regs
                          ELSE IF e.ev = "reset" THEN [r \in 0..(NReg - 1) |-> EmptyBmoc]
                          ELSE [regs EXCEPT ![e.out] = NextValue(e)]
         /\ l' = l + 1
